@@ -165,6 +165,22 @@ DevOp(s, r) ==
                            !.ports = IF r.id \in {0, 1, 2} THEN @
                                      ELSE [a \in { x \in DOMAIN @ : @[x] # r.id } |-> @[a]]])
 
+\* ---- Simulator::reset (C30): a new machine `f` (what Simulator::new builds for the CURRENT flags); the
+\* flags, the MCR handle, the internal-register map, the device table (devices io_reset: the keyboard
+\* loses its interrupt-enable bit and its buffer, the display its buffer, a timer redraws its countdown)
+\* and the breakpoints are kept.
+FlagsOf(f) == [strict |-> B(f.strict), real |-> B(f.real), dbg |-> B(f.dbg), ignp |-> B(f.ignp)]
+BpOf(b) == [k |-> b.k, a |-> b.a, c |-> [k |-> b.c.k, v |-> b.c.v]]
+IoResetDev(d, draws) == CASE d.k = "kbd" -> [d EXCEPT !.ie = FALSE]
+                          [] d.k = "timer" -> [d EXCEPT !.time = draws[d.slot]]
+                          [] OTHER -> d
+ResetOf(s, f, draws) ==
+  [f EXCEPT !.flags = s.flags, !.dbgf = s.flags.dbg, !.mcr = s.mcr, !.ireg = s.ireg, !.ports = s.ports,
+            !.devs = [j \in 1..Len(s.devs) |-> IoResetDev(s.devs[j], draws)],
+            !.kbd = IF \E j \in 1..Len(s.devs) : s.devs[j].k = "kbd" THEN <<>> ELSE s.kbd,
+            !.disp = IF \E j \in 1..Len(s.devs) : s.devs[j].k = "disp" THEN <<>> ELSE s.disp,
+            !.memw = <<>>, !.dirty = [a \in DOMAIN s.memw |-> s.memw[a]], !.bps = s.bps]
+
 \* ---- the observation of a specification step in the vocabulary of the harness projection (model checking)
 \* the observation of a step  s --> x  in the vocabulary of the harness projection
 MemDiff(s, t) == { <<a, Rd(t, a).v, Rd(t, a).m>> : a \in { a \in (DOMAIN t.memw) \cup (DOMAIN s.memw) : Rd(t, a) # Rd(s, a) } }
